@@ -14,7 +14,9 @@ mod c01;
 mod c05;
 mod c06;
 mod c07;
+mod c09;
 mod c16;
+mod c18;
 mod c10;
 mod c11;
 mod c12;
@@ -71,6 +73,7 @@ fn checks() -> Vec<Check> {
         Check { id: "C05", run: c05::run, meta: c05::meta, replay: c05::replay },
         Check { id: "C06", run: c06::run, meta: c06::meta, replay: c06::replay },
         Check { id: "C07", run: c07::run, meta: c07::meta, replay: c07::replay },
+        Check { id: "C09", run: c09::run, meta: c09::meta, replay: c09::replay },
         Check { id: "C10", run: c10::run, meta: c10::meta, replay: c10::replay },
         Check { id: "C11", run: c11::run, meta: c11::meta, replay: c11::replay },
         Check { id: "C12", run: c12::run, meta: c12::meta, replay: c12::replay },
@@ -78,6 +81,7 @@ fn checks() -> Vec<Check> {
         Check { id: "C14", run: c14::run, meta: c14::meta, replay: c14::replay },
         Check { id: "C15", run: c15::run, meta: c15::meta, replay: c15::replay },
         Check { id: "C16", run: c16::run, meta: c16::meta, replay: c16::replay },
+        Check { id: "C18", run: c18::run, meta: c18::meta, replay: c18::replay },
         Check { id: "C19", run: mp::c19_run, meta: mp::c19_meta, replay: mp::c19_replay },
     ]
 }
@@ -147,6 +151,7 @@ fn main() {
         std::process::exit((check.replay)(&v));
     }
 
+    let _ = report::KNOWN_CLASSES.set(load_known(check.id).into_iter().map(|k| k.0).collect());
     if let Some(sh) = shard {
         let mut stats = Stats::default();
         (check.run)(tier, sh, &mut stats);
